@@ -6,6 +6,9 @@ import os
 V = os.path.dirname(os.path.dirname(os.path.abspath(__file__)))
 
 CHECKS = {
+    "C11": dict(cat="model_checking", ref="§3.5 ObjProxy, §4 C11", tech="TLA+ ObjProxy.tla (trap x target state x answer lattice) and Obj.tla model-checked by TLC; every transition replayed on real Proxies (JS handler and Go ProxyTrapConfig, 1-2 layers)",
+                text="Invariant half: TLC enumerates ObjProxy.tla — for each of 11 traps, every target cell state (absent/data/accessor x writable x configurable x extensible, prototype) x every trap answer from a lattice of honest and lying answers (descriptors differing in one field, booleans, key lists with missing/extra/duplicate/non-key entries, wrong prototype, non-object) x revoked — with ECMA-262 10.5 deciding accept vs TypeError, and checks that a proxy operation never changes the target and never reports something contradicting a non-configurable target property; each transition is replayed on a real Proxy with an answering JS handler and with a Go ProxyTrapConfig handler. Forwarding half: the complete Obj.tla edge sets (C04) are replayed on handler-less, Reflect-forwarding (1 and 2 layers), Go-handler, function-target and array-target proxies and must behave exactly like ordinary objects.",
+                note="Trusts TLC, the JS adaptors (objproxy.js, obj.js) running in goja and natives.DelegatingTraps/ForwardingTraps. apply/construct traps are exercised only by the forwarding kinds. Quick tier uses the descriptor lattice (50 shapes), thorough all 729."),
     "C07": dict(cat="model_checking", ref="§3.5 ObjArray, §3.6, §4 C07", tech="TLA+ ObjArray.tla (array exotic object incl. ArraySetLength) model-checked by TLC; every transition replayed on dense / forced-sparse / sparse->dense twin arrays under order-preserving index embeddings",
                 text="TLC exhaustively explores ObjArray.tla — ECMA-262 10.4.2 array [[DefineOwnProperty]] on indices and on length (ArraySetLength with partial truncation at non-configurable elements, non-writable length), OrdinarySet/Get/Has/Delete through a prototype carrying indexed data and accessor properties, freeze/seal — checking LenBound/Essential/NoGrow on the model; every transition is replayed on real arrays in lock-step variants: dense, forced sparse (empty sparseArrayObject), sparse->dense (history), a live sparse array that switches to dense storage in the middle of an operation, and under 7 index embeddings (up to 2^32-2) that make arrays cross the dense->sparse threshold mid-sequence.",
                 note="Trusts TLC, the JS adaptor harness/adaptors/objarray.js running in goja, and the white-box storage-kind tag. Bounds: 3 abstract indices, 6 element descriptors, lengths 0..3. Array.prototype methods (ArrayOps.tla) are added separately; until then the method half of C07 is not claimed."),
